@@ -387,6 +387,18 @@ Theorem C09_index_json_current :
 Proof. exact index_json_current_final. Qed.
 Print Assumptions C09_index_json_current.
 
+(* every state of every history of the persistence layer -- complete and cancelled GCs,
+   SaveIndex, AutoSaveIndex on or off, reloads from whatever index.json holds, failed pushes --
+   is well-formed (the hypothesis of C09_delete_exact / C09_tagged_kept) and [is_tagged] means
+   "carries a tag" there *)
+Theorem C09_persist_histories :
+  forall succ subject manifest, acyclic succ -> subject_listed succ subject ->
+  forall kl ops,
+  let p := fold_left (fun p o => fst (pstep succ subject manifest cfg_fixed kl p o)) ops pinit in
+  wf (mem p) /\ (forall n, is_tagged (mem p) n = true <-> exists t, In (RTag t, n) (idx (mem p))).
+Proof. exact phistories_final. Qed.
+Print Assumptions C09_persist_histories.
+
 (* the same as an invariant of one step (any state with a current index.json) *)
 Theorem C09_index_json_step :
   forall succ subject manifest, acyclic succ -> subject_listed succ subject ->
